@@ -202,7 +202,7 @@ def run_harness(name, tier, seed, arg=None, shards=1, race=False):
                         seen.add(k)
                     recs.append(r)
     shutil.rmtree(d, ignore_errors=True)
-    return rc, recs, log[-4000:], time.time() - t
+    return rc, recs, (log if race else log[-4000:]), time.time() - t
 
 
 def run_driver(lines):
